@@ -1,6 +1,6 @@
 SPECIFICATION Spec
 CONSTANTS
-  MaxTail = 3
+  MaxTail = 2
   MaxTailWide = 4
   Variant = "ideal"
 INVARIANT ExtUrlOK
